@@ -7,12 +7,20 @@ class Mod(AbstractMod):
     def start_up(self, env, mod_config):
         LAST.clear()
         LAST["started"] = True
+        self._env = env
 
     def tear_down(self, code, exception=None):
         LAST["code"] = getattr(code, "name", str(code))
         LAST["exception"] = exception
         err = getattr(exception, "error", None)
         LAST["exc_val"] = getattr(err, "exc_val", None)
+        try:        # the portfolio as the other mods' tear_down will see it (this mod has the highest priority: torn down first)
+            p = self._env.portfolio
+            LAST["final"] = {"total_value": float(p.total_value), "cash": float(p.cash), "nav": float(p.unit_net_value), "units": float(p.units),
+                             "total_returns": float(p.total_returns), "market_value": float(p.market_value), "static_nav": float(p.static_unit_net_value),
+                             "trading_date": self._env.trading_dt.date(), "start_date": self._env.config.base.start_date, "end_date": self._env.config.base.end_date}
+        except Exception as ex:
+            LAST["final"] = None
 
 
 def load_mod():
